@@ -845,3 +845,64 @@ Proof.
   rewrite <- (Permutation_length Hp). rewrite <- (firstn_skipn (S j) o) at 1.
   rewrite concat_app, app_length. lia.
 Qed.
+
+(* ------------------------------------------------------------------------------------------ *)
+(** * Guards, literal copeland clause, regrouping *)
+
+Theorem guards i : is_ordinal (data_type i) = false ->
+  pairwise_scores i = Err Incompatible /\ copeland_scores i = Err Incompatible /\
+  (forall w, has_condorcet i w = Err Incompatible) /\ order_to_pwg i = Err Incompatible.
+Proof.
+  intros H. unfold pairwise_scores, copeland_scores, has_condorcet, order_to_pwg, pairwise_scores.
+  rewrite H. repeat split.
+Qed.
+Theorem borda_guard i : is_complete_type (data_type i) = false -> borda_scores i = Err Incompatible.
+Proof. intros H. unfold borda_scores. rewrite H. reflexivity. Qed.
+
+Theorem copeland_is_difference i tp tc a b x y : wf_inst i ->
+  pairwise_scores i = Ok tp -> copeland_scores i = Ok tc ->
+  tget tp a b = Some x -> tget tp b a = Some y -> tget tc a b = Some (x - y).
+Proof.
+  intros Hwf Hp Hc Hx Hy.
+  assert (Ht : is_ordinal (data_type i) = true).
+  { unfold pairwise_scores in Hp. destruct (is_ordinal (data_type i)); [reflexivity | discriminate]. }
+  destruct (pairwise_correct i Hwf Ht) as [tp' [E1 [P1 P2]]].
+  destruct (copeland_correct i Hwf Ht) as [tc' [E2 [C1 _]]].
+  rewrite Hp in E1. inversion E1; subst tp'. rewrite Hc in E2. inversion E2; subst tc'.
+  assert (D : In a (alts i) /\ In b (alts i) /\ a <> b) by (apply P2; congruence).
+  destruct D as [Ha [Hb Hab]].
+  rewrite (P1 a b Ha Hb Hab) in Hx. rewrite (P1 b a Hb Ha (not_eq_sym Hab)) in Hy.
+  inversion Hx; inversion Hy; subst. apply C1; assumption.
+Qed.
+
+Lemma margin_regroup p p' a b : Permutation (expand p) (expand p') -> margin p a b = margin p' a b.
+Proof. intros H. unfold margin. rewrite (pw_regroup p p' a b H), (pw_regroup p p' b a H). reflexivity. Qed.
+
+Theorem tables_regroup i i' : wf_inst i -> wf_inst i' -> alts i = alts i' ->
+  Permutation (expand (mult i)) (expand (mult i')) ->
+  pairwise_table i = pairwise_table i' /\ copeland_table i = copeland_table i' /\
+  condorcet_table i = condorcet_table i'.
+Proof.
+  intros H H' Ea Hp.
+  rewrite (pairwise_table_closed i (wf_alts_nodup i H) (wf_orders_nodup i H)).
+  rewrite (pairwise_table_closed i' (wf_alts_nodup i' H') (wf_orders_nodup i' H')).
+  rewrite (copeland_table_closed i (wf_alts_nodup i H) (wf_orders_nodup i H)).
+  rewrite (copeland_table_closed i' (wf_alts_nodup i' H') (wf_orders_nodup i' H')).
+  rewrite (condorcet_table_closed i (wf_alts_nodup i H) (wf_orders_nodup i H)).
+  rewrite (condorcet_table_closed i' (wf_alts_nodup i' H') (wf_orders_nodup i' H')).
+  rewrite <- Ea. repeat split; apply rebuild_ext; intros a b.
+  - apply pw_regroup; exact Hp.
+  - apply margin_regroup; exact Hp.
+  - apply margin_regroup; exact Hp.
+Qed.
+
+Lemma zsum_repeat {X} (f : X -> Z) x n : zsum f (repeat x n) = Z.of_nat n * f x.
+Proof. induction n; [reflexivity|]. cbn [repeat zsum fold_right]. fold (zsum f (repeat x n)). rewrite IHn. lia. Qed.
+
+Lemma borda_total_voters m p a : borda_total m p a = zsum (fun o => borda_pts m o a) (expand p).
+Proof.
+  unfold borda_total, expand. induction p as [|[o k] p IH]; [reflexivity|].
+  cbn [fold_right flat_map fst snd]. rewrite zsum_app, zsum_repeat, IH, N_nat_Z. ring.
+Qed.
+Lemma borda_total_regroup m p p' a : Permutation (expand p) (expand p') -> borda_total m p a = borda_total m p' a.
+Proof. intros H. rewrite !borda_total_voters. apply zsum_perm. exact H. Qed.
